@@ -51,6 +51,7 @@ func portPair() (int, int) {
 type realSidecar struct {
 	cmd    *exec.Cmd
 	api    string
+	proxy  string
 	stderr *bytes.Buffer
 	done   chan error
 }
@@ -81,6 +82,9 @@ func StartRealSidecar(bin, dir, promURL string, tsdbHits func() int64, extra ...
 // API is the base URL of the sidecar's API.
 func (r *RealSidecar) API() string { return r.rs.api }
 
+// ProxyURL is the address of the sidecar's scrape proxy (what --inject.proxy writes into the generated file).
+func (r *RealSidecar) ProxyURL() string { return r.rs.proxy }
+
 // Stderr is what the process has logged so far.
 func (r *RealSidecar) Stderr() string { return r.rs.stderr.String() }
 
@@ -92,7 +96,7 @@ func startRealSidecarOnce(bin, dir, promURL string, tsdbHits func() int64, extra
 	if ap == 0 {
 		return &realSidecar{stderr: &bytes.Buffer{}}, fmt.Errorf("no free port pair in this worker's range (harness)")
 	}
-	rs := &realSidecar{api: fmt.Sprintf("http://127.0.0.1:%d", ap), stderr: &bytes.Buffer{}, done: make(chan error, 1)}
+	rs := &realSidecar{api: fmt.Sprintf("http://127.0.0.1:%d", ap), proxy: fmt.Sprintf("http://127.0.0.1:%d", pp), stderr: &bytes.Buffer{}, done: make(chan error, 1)}
 	rs.cmd = exec.Command(bin, "sidecar", "--config.file=", "--config.output-file="+filepath.Join(dir, "out.yaml"),
 		"--store.path="+filepath.Join(dir, "store"), fmt.Sprintf("--web.api-addr=127.0.0.1:%d", ap),
 		fmt.Sprintf("--web.proxy-addr=127.0.0.1:%d", pp), "--prometheus.url="+promURL, fmt.Sprintf("--inject.proxy=http://127.0.0.1:%d", pp))
